@@ -644,7 +644,13 @@ pub fn run(run: &mut Run) -> Result<(), String> {
                 plan.raws.push((Box::new(EpExposure), b(0, 0)));
                 plan.raws.push((Box::new(Castle { extra: 0, ek_rank2: true }), b(0, 0)));
                 plan.raws.push((Box::new(EpUniverse::before_push(q)), b(d1, 0)));
+                plan.raws.push((Box::new(PinUniverse { kings: vec![4, 27] }), b(0, 0)));
+                plan.raws.push((Box::new(EpStale), b(0, 0)));
+                plan.raws.push((Box::new(EpFile), b(0, 0)));
             } else {
+                plan.raws.push((Box::new(PinUniverse { kings: vec![4, 27, 0, 60, 36] }), b(0, 0)));
+                plan.raws.push((Box::new(EpStale), b(0, 0)));
+                plan.raws.push((Box::new(EpFile), b(d1, 0)));
                 plan.raws.push((Box::new(Castle { extra: 1, ek_rank2: true }), b(0, 0)));
                 plan.raws.push((Box::new(EpUniverse::before_push(q)), b(d1, 0)));
                 plan.raws.push((Box::new(EpExposure), b(d1, 0)));
@@ -713,8 +719,13 @@ pub fn run(run: &mut Run) -> Result<(), String> {
                 plan.raws.push((Box::new(CastleBox { max_items: 2 }), b(0, 0)));
                 plan.raws.push((Box::new(EpExposure), b(0, 0)));
                 plan.raws.push((Box::new(Castle { extra: 0, ek_rank2: true }), b(0, 0)));
+                plan.raws.push((Box::new(PinUniverse { kings: vec![4, 27] }), b(0, 0)));
+                plan.raws.push((Box::new(EpFile), b(0, 0)));
                 plan.lines = Some(b(1, 1));
             } else {
+                plan.raws.push((Box::new(PinUniverse { kings: vec![4, 27, 0, 60, 36] }), b(0, 0)));
+                plan.raws.push((Box::new(EpStale), b(0, 0)));
+                plan.raws.push((Box::new(EpFile), b(0, 0)));
                 plan.raws.push((Box::new(Castle { extra: 1, ek_rank2: true }), b(0, 0)));
                 plan.raws.push((Box::new(EpExposure), b(0, 0)));
                 plan.raws.push((Box::new(CheckPin { kings: vec![4, 27, 0, 60] }), b(0, 0)));
@@ -744,8 +755,11 @@ pub fn run(run: &mut Run) -> Result<(), String> {
                 plan.raws.push((Box::new(DoubleCheck { kings: vec![4], own_kinds: vec![Kind::P] }), b(0, 0)));
                 plan.raws.push((Box::new(CheckPin { kings: vec![27] }), b(0, 0)));
                 plan.raws.push((Box::new(EpExposure), b(0, 0)));
+                plan.raws.push((Box::new(PinUniverse { kings: vec![27] }), b(0, 0)));
                 plan.lines = Some(b(1, 0));
             } else {
+                plan.raws.push((Box::new(PinUniverse { kings: vec![4, 27] }), b(0, 0)));
+                plan.raws.push((Box::new(EpFile), b(0, 0)));
                 plan.raws.push((Box::new(EpExposure), b(0, 0)));
                 plan.raws.push((Box::new(CheckPin { kings: vec![4, 27] }), b(0, 0)));
                 plan.raws.push((Box::new(CastleBox { max_items: 2 }), b(0, 0)));
